@@ -232,7 +232,6 @@ package dastard
 //@     invariant -1 <= rangeindex && rangeindex <= len(ds.processors) - 1 && ProcsOK(ds) && InvS(ds.writingState) && unchanged(ds.writingState.Active, ds.writingState.Paused, ds.writingState.WriteLJH22, ds.writingState.WriteLJH3, ds.writingState.WriteOFF)
 //@     invariant done: forall p int :: {at(ds.processors, p)} ds.processors.off <= p && p <= ds.processors.off + rangeindex ==> !at(ds.processors, p).WritingPaused
 //@     invariant rest: forall p int :: {at(ds.processors, p)} ds.processors.off <= p && p < ds.processors.off + len(ds.processors) ==> unchanged(at(ds.processors, p).LJH22, at(ds.processors, p).LJH3, at(ds.processors, p).OFF)
-//@     modifies dp.LJH3.RecordsWritten, dp.LJH3.writer.n, dp.LJH3.writer.acc, dp.LJH3.writer.items, dp.LJH3.writer.mark
 //@   loop 3
 //@     invariant -1 <= rangeindex && rangeindex <= len(ds.processors) - 1 && ProcsOK(ds) && InvS(ds.writingState) && ReportUnchanged(ds)
 //@     invariant done: forall p int :: {at(ds.processors, p)} ds.processors.off <= p && p <= ds.processors.off + rangeindex ==> at(ds.processors, p).LJH22 == nil && at(ds.processors, p).LJH3 == nil && at(ds.processors, p).OFF == nil
@@ -278,7 +277,6 @@ package dastard
 //@     invariant done: forall p int :: {at(ds.processors, p)} ds.processors.off <= p && p <= ds.processors.off + rangeindex ==> at(ds.processors, p).LJH22 == nil && at(ds.processors, p).LJH3 == nil && at(ds.processors, p).OFF == nil
 //@   loop 2
 //@     invariant -1 <= rangeindex && rangeindex <= len(ds.processors) - 1
-//@     modifies dp.LJH3.RecordsWritten, dp.LJH3.writer.n, dp.LJH3.writer.acc, dp.LJH3.writer.items, dp.LJH3.writer.mark
 //@   loop 3
 //@     invariant -1 <= rangeindex && rangeindex <= len(ds.processors) - 1 && ProcsOK(ds) && InvS(ds.writingState) && ReportUnchanged(ds) && config != nil
 //@     invariant flags: unchanged(config.WriteLJH22, config.WriteLJH3, config.WriteOFF, config.MapInternalOnly) && ChanTablesOK(ds)
